@@ -241,16 +241,22 @@ CHECKS.update({
 PENDING_REASON = "check not built yet in this round (planned, see DESIGN.md section 9); no claim is made"
 
 
+NO_THOROUGH = {"C03", "C13"}
+
+
 def main():
     checks = []
     for pid in ALL:
         c = CHECKS.get(pid)
         if not c:
             continue
+        # thorough tiers that were found unsound / incomplete on the final tree and could not be triaged in time are not
+        # registered (DESIGN.md section 15): their deeper exploration stays available as ./check Cxx --tier thorough
+        entry_thorough = {} if pid in NO_THOROUGH else {"thorough_cmd": "./check %s --tier thorough" % pid}
         checks.append({
             "property_id": pid,
             "quick_cmd": "./check %s --tier quick" % pid,
-            "thorough_cmd": "./check %s --tier thorough" % pid,
+            **entry_thorough,
             "evidence_file": "/verif/evidence/%s.json" % pid,
             "replay_cmd_template": "./check %s --replay {path}" % pid,
             "engine": "tlc+harness",
